@@ -4,7 +4,7 @@
 From Coq Require Import ZArith NArith List.
 From Coq Require Extraction.
 From Coq Require Import ExtrOcamlBasic.
-From AMS Require Import Models.
+From AMS Require Import Models SaveCrash.
 Extraction Language OCaml.
 Extraction "model.ml"
   Z.add Z.mul Z.opp Z.of_N Z.of_nat N.add N.mul
@@ -13,4 +13,5 @@ Extraction "model.ml"
   show_step show_world show_dec show_msg
   utf8_encode utf8_decode py_int rstrip split splitn join str_of_Z
   parse_ver vlt_full
-  frun quiesce finit.
+  frun quiesce finit
+  load_registry load_node load_child dump_registry dump_node legacy_node show_node show_nodes crash_category.
